@@ -183,7 +183,9 @@ CHECKS["C06"] = dict(
           "(plates with side-by-side dielectrics, slab with convection, uniform B across side-by-side permeabilities; planar, "
           "axisymmetric, static and time-harmonic): every nodal value vs the closed form to solver precision, and stored "
           "energy, conductor charge, heat flux and field values through the real post-processor. The convergence half "
-          "(non-affine classics: coaxial capacitor at two mesh sizes) is an error-decrease test, not a proof (labelled)."),
+          "(non-affine classics: coaxial capacitor at two mesh sizes) is an error-decrease test, not a proof (labelled). The stiffness part of "
+          "the time-harmonic magnetics model (MHarmonic.harmStiff, tied bit for bit to Harmonic2D) is proved to BE the shared element over "
+          "the complex field with the complex reluctivities as coefficients, so the patch theorems hold for it too."),
     design_ref="DESIGN.md section 3, C06",
     technique="Lean 4 proof (patch theorem: telescoping flux sums over a closed element fan, on the element model tied to the code in C03) + closed-form families executed on the real mesher / solvers / post-processor",
 )
